@@ -191,9 +191,12 @@ func (g *c06gen) sep(need bool) string {
 		}
 		if g.policy == 3 && g.rng.Bool() || g.rng.Chance(1, 5) {
 			// one comment, or a run of comments with their own line ends
+			// the percent sign is a delimiter: it may follow the previous token directly
 			out := ""
+			lead := []string{" ", "", "", "\t"}[g.rng.Intn(4)]
 			for n := []int{1, 1, 2, 3}[g.rng.Intn(4)]; n > 0; n-- {
-				out += " %" + []string{"", " comment ) ( >> ", "% x", " 7 0 R"}[g.rng.Intn(4)] + nl
+				out += lead + "%" + []string{"", " comment ) ( >> ", "% x", " 7 0 R"}[g.rng.Intn(4)] + nl
+				lead = []string{" ", ""}[g.rng.Intn(2)]
 			}
 			return out
 		}
